@@ -16,7 +16,7 @@ RULE = (
     "and same tree as the baseline for the optimized interpreter and for code generated from the optimized "
     "rules; a configuration whose Parser cannot be built is a violation. Plus an exhaustive skip-until matrix: "
     "every ordered list of 1-3 stop strings over {a, b, aa, ab, ba, bb} x three rule shapes x every input over "
-    "{a, b, x} of length <= 4 (quick) / 5 (thorough) x {skip alone, default pipeline} x {interpreter, generated}; and the deterministic trivia-configuration and modifier-chain matrices of pestverif/tmatrix.py (194 + 450 grammars quick, 194 + 2325 thorough) under the default pipeline and single passes. Non-trivial: the configuration "
+    "{a, b, x} of length <= 4 (quick) / 5 (thorough) x {skip alone, default pipeline} x {interpreter, generated}; and the deterministic trivia-configuration and modifier-chain matrices of pestverif/tmatrix.py (194 + 450 grammars quick, 194 + 2325 thorough) under the default pipeline and single passes; and an exhaustive choice matrix (every ordered pair and triple from 13 literal / range / built-in (ASCII_DIGIT, NEWLINE) / case-insensitive alternatives x 49 inputs) under the default pipeline, inline-built-in alone and squash alone. Non-trivial: the configuration "
     "rewrote at least one rule (tree_view differs from the baseline) and the parse consumed input or failed "
     "beyond offset 0; distinct by hash of (grammar, configuration, mode, rule, input)."
 )
@@ -139,6 +139,55 @@ def run_skip_matrix(ctx: Ctx, modes, idx):
     ctx.exhaustive.update({"complete": True, "skip_matrix_stop_lists": len(lists), "skip_matrix_inputs": len(inputs)})
 
 
+def run_squash_matrix(ctx: Ctx, modes, idx):
+    """Exhaustive choice matrix for the squash / inline-built-in passes: every ordered pair and triple of
+    alternatives from a pool of literals (incl. prefixes of one another and the empty string), ranges, two built-in
+    rules and case-insensitive literals x every input over {a, b, 0, 5, x, A} of length <= 2."""
+    import itertools
+
+    from pestverif import gast
+
+    pool = [("str", "a"), ("str", "ab"), ("str", "b"), ("str", "0"), ("str", "00"), ("str", "5x"), ("range", "0", "9"),
+            ("range", "a", "c"), ("id", "ASCII_DIGIT"), ("ci", "a"), ("ci", "ab"), ("str", ""), ("id", "NEWLINE")]
+    alts = list(itertools.permutations(pool, 2)) + list(itertools.permutations(pool, 3))
+    inputs = ["".join(p) for n in range(3) for p in itertools.product("ab05xA", repeat=n)] + ["\n", "\r\n", "\r", "\nx", "\r\nx", "a\n"]
+    calls = [("r", i, 0) for i in inputs]
+    for k, alt in enumerate(alts):
+        if k % 16 != idx:
+            continue
+        rules = [("r", "", ("seq", (("alt", tuple(alt)), ("opt", ("str", "x")))))]
+        text = gprint.grammar_text(rules)
+        base = modes.raw.call("pestverif.modes:eval_grammar", {"text": text, "calls": calls, "gen": False})
+        if base["load"][0] != "ok":
+            ctx.count("frontend_rejected")
+            continue
+        ctx.count("squash_matrix_grammars")
+        for cfg in ("opt", (2,), (3,)):
+            res = run_config(modes, cfg, {"text": text, "calls": calls, "gen": True})
+            name = cfg_name(cfg)
+
+            def mk(call, which, cfg=cfg):
+                return {"rules": gast.to_json([list(r) for r in rules]), "grammar_text": text, "rule": "r",
+                        "input": call[1], "start_pos": 0, "mode": which,
+                        "config": cfg if isinstance(cfg, str) else list(cfg)}
+
+            if res["load"][0] != "ok":
+                ctx.violation(f"squash-matrix:{name}:load", mk(calls[0], "int"), f"Parser construction failed: {res['load']}")
+                continue
+            if res["gen_load"][0] != "ok":
+                ctx.violation(f"squash-matrix:{name}:genload", mk(calls[0], "gen"), f"generated module unloadable: {res['gen_load']}")
+            for which, outs in (("int", res["int"]), ("gen", res["gen"])):
+                for call, b, g in zip(calls, base["int"], outs):
+                    ctx.evals += 1
+                    cls = compare(b, g)
+                    if cls in (None, "skip"):
+                        continue
+                    ctx.violation(f"squash-matrix:{name}:{which}:{cls}", mk(call, which),
+                                  f"baseline {str(b)[:200]} vs [{name}] {str(g)[:200]}")
+        ctx.nt_extra += 1
+    ctx.exhaustive.update({"squash_matrix_choices": len(alts), "squash_matrix_inputs": len(inputs)})
+
+
 def run_trivia_matrix(ctx: Ctx, modes, idx):
     """Deterministic trivia-configuration and modifier-chain matrices (pestverif/tmatrix.py): the default
     pipeline and each single pass against optimizer=None."""
@@ -150,7 +199,7 @@ def run_trivia_matrix(ctx: Ctx, modes, idx):
             continue
         text = gprint.grammar_text(rules)
         if ctx.tier == "quick":
-            calls = [c for c in calls if c[0] not in ("r5", "r6")]
+            calls = [c for c in calls if c[0] not in ("r5", "r6", "r8")]
         base = modes.raw.call("pestverif.modes:eval_grammar", {"text": text, "calls": calls, "gen": False})
         if base["load"][0] != "ok":
             ctx.count("frontend_rejected")
@@ -254,6 +303,7 @@ def run_shard(ctx: Ctx, spec):
         t()
         run_skip_matrix(ctx, modes, spec["idx"])
         run_trivia_matrix(ctx, modes, spec["idx"])
+        run_squash_matrix(ctx, modes, spec["idx"])
     finally:
         modes.close()
         for w in _singles.values():
